@@ -181,19 +181,32 @@ func (e *Engine) Build(parent common.Hash, parentNumber uint64, attrs *engine.Pa
 	txs = append(txs, attrs.GoatTxs...)
 	txs = append(txs, e.NextUserTxs...)
 	zero := uint64(0)
+	// header fields vary from block to block the way a real chain's do (deterministically, from the block number): every one of
+	// them must come back unchanged when the application later tells the engine about this payload
+	n := parentNumber + 1
+	excess := uint64(0)
+	if n%5 == 3 {
+		excess = 131072 * (1 + n%3) // no blob gas USED, but the running excess of earlier blocks is not zero
+	}
+	var stateRoot, receiptsRoot common.Hash
+	binary.BigEndian.PutUint64(stateRoot[:8], n*1000003)
+	binary.BigEndian.PutUint64(receiptsRoot[8:16], n*7919)
 	data := &engine.ExecutableData{
 		ParentHash:    parent,
 		FeeRecipient:  attrs.SuggestedFeeRecipient,
 		LogsBloom:     make([]byte, 256),
 		Random:        attrs.Random,
 		Number:        parentNumber + 1,
-		GasLimit:      30_000_000,
+		GasLimit:      30_000_000 + n%1024,
+		GasUsed:       21_000 * (n % 7),
+		StateRoot:     stateRoot,
+		ReceiptsRoot:  receiptsRoot,
 		Timestamp:     attrs.Timestamp,
 		ExtraData:     GoatExtra(len(attrs.GoatTxs), attrs.GoatTxs),
-		BaseFeePerGas: big.NewInt(7),
+		BaseFeePerGas: big.NewInt(int64(7 + n%13)),
 		Transactions:  txs,
 		BlobGasUsed:   &zero,
-		ExcessBlobGas: &zero,
+		ExcessBlobGas: &excess,
 	}
 	reqs := e.NextRequests
 	if reqs == nil {
